@@ -71,6 +71,7 @@ func guardAtPos(p *core.Prog, pos token.Pos) (conds []core.Cond, g *core.GuardEv
 		}
 		return core.SingleReturnExpr(pk, fn)
 	}
+	conds = g.ExpandConds(conds)
 	return conds, g, complex, nil
 }
 
